@@ -161,6 +161,7 @@ let codec kind a0 =
       triple (F ("X", List.length v)) (enc_fmt_strings v) (fun bs -> rfail (show_samples (fun x -> "s" ^ hex_of_bytes x)) (dec_fmt_strings (nat_of_int (List.length v)) bs))
   | "fsv" -> let v = per_sample opt_hex_list a0 in
       triple (F ("X", List.length v)) (enc_fmt_str_arrays v) (fun bs -> rfail (show_samples (show_list "S" hex_of_bytes)) (dec_fmt_str_arrays (nat_of_int (List.length v)) bs))
+  | "ig" -> triple (I "X") enc_info_missing (fun bs -> rres (fun _ -> "F") (dec_flag bs))
   | "ii" -> triple (I "X") (enc_info_int (z_of_dec a0)) (fun bs -> rres show_rvalue (dec_info_int bs))
   | "iv" -> triple (I "X") (enc_info_ints (opt_list a0)) (fun bs -> rres show_rvalue (dec_info_ints bs))
   | "if" -> triple (I "X") (enc_info_float (z_of_dec a0)) (fun bs -> rres show_rvalue (dec_info_float bs))
@@ -212,11 +213,64 @@ let blk a =
         String.concat "|" (show di ic) ^ "||" ^ String.concat "|" (show df fc)) in
     Some (h ^ " " ^ back)
 
+(* `hxr`: a whole record on hostile bytes through dec_record_typed *)
+let hxr a =
+  let kinds s = if s = "e" then [] else split_on ',' s in
+  let ik = List.mapi (fun j k -> (ascii (Printf.sprintf "X%d" j),
+    (match k with "ii" -> KInt false | "iv" -> KInt true | "if" -> KFloat false | "ifv" -> KFloat true
+                | "is" -> KStr false | "isv" -> KStr true | _ -> KFlag))) (kinds a.(0)) in
+  let fk = List.mapi (fun j k -> ((if k = "gt" then ascii "GT" else ascii (Printf.sprintf "Y%d" j)),
+    (match k with "gt" -> FStr true | "fi" -> FInt true | "fv" -> FInt false | "ff" -> FFloat true
+                | "ffv" -> FFloat false | "fs" -> FStr true | _ -> FStr false))) (kinds a.(1)) in
+  let ns = int_of_string a.(2) in
+  let strings = get_map (build_strings (List.map (fun (n, _) -> (n, None)) ik @ List.map (fun (n, _) -> (n, None)) fk))
+  and contigs = get_map (build_contigs [(ascii "c", None)]) in
+  let look l n = List.assoc_opt n l in
+  match dec_record_typed strings contigs (look ik) (look fk) (z_of_int ns) (bytes_of_hex a.(3)) with
+  | RErr -> Some "Fail"
+  | RPanic -> Some "Panic"
+  | ROk t ->
+    let h = t.t_head in
+    let ol f = function None -> "." | Some x -> f x in
+    let ival = function IV v -> show_rvalue v | IS v -> show_sval v | IFlagV -> "F" in
+    let cell = function
+      | CI o -> ol (fun n -> "i" ^ dec_of_z n) o
+      | CIV o -> ol (show_list "I" dec_of_z) o
+      | CF o -> ol (fun b -> "f" ^ hex8 b) o
+      | CFV o -> ol (show_list "R" hex8) o
+      | CC o -> ol (fun c -> "c" ^ hexc c) o
+      | CCV o -> ol (show_list "C" hexc) o
+      | CS o -> ol (fun x -> "s" ^ hex_of_bytes x) o
+      | CSV o -> ol (show_list "S" hex_of_bytes) o
+      | CG o -> show_gt o in
+    Some (String.concat "|" [
+      text_of h.h_chrom;
+      (match h.h_pos with None -> "." | Some p -> dec_of_z p);
+      (match h.h_qual with None -> "." | Some q -> hex8 q);
+      show_strs ";" h.h_ids; hex_of_bytes h.h_ref; show_strs "," h.h_alts;
+      String.concat ";" (List.map text_of h.h_filters) ]
+      ^ "||" ^ String.concat "|" (List.map (fun (k, v) -> text_of k ^ "=" ^ ival v) t.t_info)
+      ^ "||" ^ String.concat "," (List.map text_of t.t_keys)
+      ^ "||" ^ String.concat ";" (List.map (fun r -> String.concat ":" (List.map cell r)) t.t_rows))
+
 let handle kind a =
   match kind with
   | "hd" -> hd a
   | "sm" -> let d = sm_both (sm_lines a.(0)) (sm_lines a.(1)) in Some ("W=" ^ d ^ "|R=" ^ d)
   | "blk" -> blk a
+  | "hxr" -> hxr a
+  | "hx" ->
+      (* the kind's decoder on arbitrary bytes; the argument handed to codec only fixes the
+         sample count *)
+      let ns = int_of_string a.(1) in
+      let dummy = (match a.(0) with
+        | "ii" | "if" -> "0" | "iv" | "ifv" -> "0" | "is" -> "41" | "ic" -> "41" | "icv" | "isv" -> "41"
+        | "gt" -> String.concat ";" (List.init ns (fun _ -> "0u"))
+        | "fi" | "ff" | "fv" | "ffv" -> String.concat ";" (List.init ns (fun _ -> "0"))
+        | _ -> String.concat ";" (List.init ns (fun _ -> "41"))) in
+      (match codec a.(0) dummy with
+       | Some (_, _, back) -> Some (back (bytes_of_hex a.(2)))
+       | None -> None)
   | _ -> (match codec kind a.(0) with Some (c, w, back) -> both c w back | None -> None)
 
 let () = run_driver handle
